@@ -43,6 +43,10 @@ def foreign_body(name, kind):
         txt = dl.join(['cluster_id', f1, f2]) + '\n' + dl.join(['0', '1.5', 'hello']) + '\n' + \
             dl.join(['2', '', 'world']) + '\n'
         return txt.encode(), {f1: {0: 1.5}, f2: {0: 'hello', 2: 'world'}}
+    if kind == 'valid_gap_first':
+        txt = dl.join(['cluster_id', f1, f2]) + '\n' + dl.join(['0', '', 'hello']) + '\n' + \
+            dl.join(['2', '1.5', 'world']) + '\n'
+        return txt.encode(), {f1: {2: 1.5}, f2: {0: 'hello', 2: 'world'}}
     if kind == 'header':
         return (dl.join(['cluster_id', f1]) + '\n').encode(), None
     if kind == 'empty':
@@ -62,8 +66,8 @@ def alphabet(tier):
     for f in FIELDS:
         for mname in MAPPINGS:
             evs.append(('save_meta', f, mname))
-    kinds = ['valid', 'header', 'empty', 'ragged', 'noid', 'badutf8'] if tier == 'thorough' else \
-        ['valid', 'empty', 'badutf8', 'ragged']
+    kinds = ['valid', 'valid_gap_first', 'header', 'empty', 'ragged', 'noid', 'badutf8'] \
+        if tier == 'thorough' else ['valid', 'valid_gap_first', 'empty', 'badutf8', 'ragged']
     names = list(FOREIGN_NAMES) if tier == 'thorough' else ['cluster_metrics.tsv', 'extra.csv',
                                                            'cluster_info.tsv']
     for n in names:
@@ -286,11 +290,14 @@ _CFG = {'tier': 'quick'}
 
 def make_bases(ctx):
     del _BASES[:]
-    for name, raw, naming in (('raw', True, 'ks'), ('noraw', False, 'ks'), ('alf', False, 'alf')):
+    for name, raw, naming in (('raw', True, 'ks'), ('noraw', False, 'ks'), ('alf', False, 'alf'),
+                              ('noclusters', False, 'ks')):
         spec = {'n_spikes': 8, 'n_templates': 3, 'n_channels': 4, 'nsw': 4, 'n_raw': 40,
                 'spike_templates': [0, 1, 2, 0, 0, 1, 0, 2], 'raw': raw, 'features': 'absent',
                 'tfeatures': 'absent', 'whitening_inv': True, 'fill': ctx.seed, 'naming': naming,
                 'channel_map': 'perm' if raw else 'identity'}
+        if name == 'noclusters':
+            spec['spike_clusters'] = 'absent'     # load_model creates the cluster file itself
         _BASES.append({'name': name, 'spec': spec})
 
 
